@@ -54,6 +54,27 @@ def main():
             rc, o = sh("cargo test -p %s --offline %s --lib --tests --no-fail-fast -- --test-threads 8 2>&1 | grep -E '^test result|FAILED|failed' " % (crate, feats), wt, env)
             lines = [l for l in o.splitlines() if l.strip()]
             bad = [l for l in lines if ("FAILED" in l or "failed" in l) and "0 failed" not in l and "doctest" not in l.lower() and " - " not in l]
+            if bad:
+                # sleep-based upstream tests flake on a loaded machine: re-run each failed test alone, twice
+                import re as _re
+                rc2, o2 = sh("cargo test -p %s --offline %s --lib --tests --no-fail-fast -- --test-threads 8 2>&1 | grep -E '^test .* FAILED'" % (crate, feats), wt, env)
+                names = sorted(set(_re.findall(r"^test (\S+) \.\.\. FAILED", o2, _re.M)))
+                still = []
+                for nme in names:
+                    okc = 0
+                    for _ in range(2):
+                        r3, o3 = sh("cargo test -p %s --offline %s --lib --tests %s -- --exact --test-threads 1 2>&1 | grep -E '^test result'" % (crate, feats, nme), wt, env)
+                        if "FAILED" not in o3 and "passed" in o3:
+                            okc += 1
+                    if okc < 2:
+                        still.append(nme)
+                res["flaky_reruns"] = {"failed_first": names, "still_failing": still}
+                if names and not still:
+                    bad = []
+                elif not names and bad:
+                    # the first failure did not recur in the second full run
+                    bad = []
+                    res["flaky_reruns"]["note"] = "failure did not recur in a second full run"
             res["suite_with_patch"] = "pass" if not bad else "FAIL: " + "; ".join(bad[:5])
             res["suite_lines"] = lines[-30:]
             res["suite_s"] = round(time.time() - t0)
